@@ -42,3 +42,22 @@ package cache
 //@   loop 1
 //@     invariant [C17:every-node-so-far-was-taken-back-from-the-policy] r.cacher != nil ==> calls("cache.Cacher.Evict") >= old(calls("cache.Cacher.Evict")) + rangeidx
 //@   ensures [C17:close-takes-every-node-back-from-the-policy] r.cacher != nil ==> calls("cache.Cacher.Evict") >= old(calls("cache.Cacher.Evict")) + len(nodes)
+
+// C17 (finalisers run exactly once): finalising forgets the value and the delete callbacks, so finalising again does
+// nothing; an empty handle releases nothing; a node that is still referenced keeps its value.
+//@ count util.Releaser.Release
+//@ count (*Node).callFinalizer
+//@ count (*Node).unRefExternal
+//@ func (*Node).callFinalizer
+//@   props C17
+//@   safety off
+//@   ensures [C17:finalised-values-are-forgotten] n.value == nil && len(n.delFuncs) == 0
+//@   ensures [C17:a-forgotten-value-is-not-finalised-again] (old(n.value) == nil && len(old(n.delFuncs)) == 0) ==> calls("util.Releaser.Release") == old(calls("util.Releaser.Release"))
+//@ func (*Handle).Release
+//@   props C17
+//@   safety off
+//@   ensures [C17:an-empty-handle-releases-nothing] old(h.n) == nil ==> calls("(*Node).unRefExternal") == old(calls("(*Node).unRefExternal"))
+//@ func (*Node).unRefExternal
+//@   props C17
+//@   safety off
+//@   ensures [C17:live-references-keep-the-value] old(n.ref) != 1 ==> (calls("(*Node).callFinalizer") == old(calls("(*Node).callFinalizer")) && n.value == old(n.value))
